@@ -1577,6 +1577,18 @@ func keepAllRule(w *World, r *Report, fi *FuncInfo) {
 							altOK = true
 						}
 					}
+					// an if without else whose body ends the iteration (continue / break / return): the alternative is
+					// what follows the if in the loop body
+					if !altOK && is.Else == nil && terminates(is.Body) {
+						for _, later := range stmtsAfter(loop.Body, is) {
+							if hasAppend(later) {
+								altOK = true
+							}
+							if rs, ok := later.(*ast.ReturnStmt); ok && rs != nil {
+								altOK = true
+							}
+						}
+					}
 					if !altOK {
 						r.Fail(VViolation, "keepall", fi.Key, inst, w.Pos(x.Pos()), fmt.Sprintf("the element is stored only when %s, a condition on the value %s read from the element itself, and the other branch neither stores it nor leaves the loop: elements for which it is false are consumed and dropped", types.ExprString(is.Cond), usesWire))
 						return
@@ -1778,4 +1790,28 @@ func init() {
 			}
 		}
 	}
+}
+
+// stmtsAfter: the statements that follow target in the statement list (of root or any nested block) that
+// contains it directly.
+func stmtsAfter(root *ast.BlockStmt, target ast.Stmt) []ast.Stmt {
+	var out []ast.Stmt
+	ast.Inspect(root, func(n ast.Node) bool {
+		var list []ast.Stmt
+		switch b := n.(type) {
+		case *ast.BlockStmt:
+			list = b.List
+		case *ast.CaseClause:
+			list = b.Body
+		default:
+			return true
+		}
+		for i, st := range list {
+			if st == target {
+				out = list[i+1:]
+			}
+		}
+		return true
+	})
+	return out
 }
